@@ -573,20 +573,31 @@ def find_loops(text):
     return toks, res
 
 
-def splice_loops(text, loop_specs):
-    """R5: insert invariant text before the body brace of loop k"""
-    if not loop_specs:
+def splice_loops(text, loop_specs, loop_ends=None):
+    """R5: insert invariant text before the body brace of loop k; `loop_ends[k]` (proof-only ghost code) goes at the END of the body of loop k
+    (after its last statement, which is terminated with `;` if it was a tail expression)"""
+    loop_ends = loop_ends or {}
+    if not loop_specs and not loop_ends:
         return text
     toks, loops = find_loops(text)
-    ins = {}
+    ins, ends = {}, {}
     for k, spec in loop_specs.items():
         if k >= len(loops):
             raise Undecided('splice: loop %d not found (function has %d loops)' % (k, len(loops)))
         ins[loops[k][1]] = spec
+    for k, code in loop_ends.items():
+        if k >= len(loops):
+            raise Undecided('splice: loop %d not found (function has %d loops)' % (k, len(loops)))
+        close = match_close(toks, loops[k][1])
+        p = _prev_code(toks, close)
+        need_semi = toks[p].text not in (';', '{', '}')
+        ends[close] = (';' if need_semi else '') + '\n' + code.rstrip() + '\n'
     out = []
     for j, t in enumerate(toks):
         if j in ins:
             out.append('\n' + ins[j].rstrip() + '\n')
+        if j in ends:
+            out.append(ends[j])
         out.append(t.text)
     return ''.join(out)
 
